@@ -203,7 +203,7 @@ def run_level(ctx, replay, module, invs, flavour="mix", trace=False, prefix="tra
                    "why": v["why"], "module": module}, open(os.path.join(d, "meta.json"), "w"), indent=1)
         open(os.path.join(d, "tlc-state.txt"), "w").write(v["txt"])
         confirmed = True
-        if not replay and n < 12:
+        if not replay and n < int(os.environ.get("VERIF_MAXCONFIRM", "12")):
             # re-run this single input: every variant gets a fresh process (and a fresh vm context)
             out2, _ = campaign(ctx, flavour, trace, cases=os.path.join(d, "cases.json"),
                                inputs_file=os.path.join(d, "inputs.txt"), variants=variants, name="confirm-%d" % n)
